@@ -1,0 +1,82 @@
+//go:build verif
+
+package verifier
+
+// Read-only accessors for the property checks C10/C11/C12 (build tag verif).
+// Nothing here mutates the graph; slices and maps are fresh copies.
+
+// VerifMaxIntermediateCount is the walk's depth constant.
+const VerifMaxIntermediateCount = maxIntermediateCount
+
+// VerifIssuer returns the issuer node of the edge (nil when dangling).
+func (e *GraphEdge) VerifIssuer() *GraphNode { return e.issuer }
+
+// VerifChild returns the child (subject) node of the edge.
+func (e *GraphEdge) VerifChild() *GraphNode { return e.child }
+
+// VerifRoot returns the root mark of the edge.
+func (e *GraphEdge) VerifRoot() bool { return e.root }
+
+// VerifKeyedEdges is one entry of a GraphEdgeSet: the map key and the edge.
+type VerifKeyedEdge struct {
+	Key  string // map key inside the GraphEdgeSet (certificate SHA-256 fingerprint)
+	Edge *GraphEdge
+}
+
+func verifCopySet(es *GraphEdgeSet) []VerifKeyedEdge {
+	if es == nil {
+		return nil
+	}
+	out := make([]VerifKeyedEdge, 0, len(es.edges))
+	for k, e := range es.edges {
+		out = append(out, VerifKeyedEdge{Key: k, Edge: e})
+	}
+	return out
+}
+
+func verifCopyAdj(m map[subjectAndKeyFingerprint]*GraphEdgeSet) map[string][]VerifKeyedEdge {
+	out := make(map[string][]VerifKeyedEdge, len(m))
+	for k, es := range m {
+		out[string(k)] = verifCopySet(es)
+	}
+	return out
+}
+
+// VerifParentEdges returns parentsBySubjectAndKey: issuer node fingerprint ->
+// edges (certificates for this node issued by that node).
+func (n *GraphNode) VerifParentEdges() map[string][]VerifKeyedEdge {
+	return verifCopyAdj(n.parentsBySubjectAndKey)
+}
+
+// VerifChildEdges returns childrenBySubjectAndKey: child node fingerprint ->
+// edges (certificates issued by this node to that node).
+func (n *GraphNode) VerifChildEdges() map[string][]VerifKeyedEdge {
+	return verifCopyAdj(n.childrenBySubjectAndKey)
+}
+
+// VerifMissingIssuer returns the missingIssuerNode index: raw issuer -> edges.
+func (g *Graph) VerifMissingIssuer() map[string][]VerifKeyedEdge {
+	out := make(map[string][]VerifKeyedEdge, len(g.missingIssuerNode))
+	for k, es := range g.missingIssuerNode {
+		out[k] = verifCopySet(es)
+	}
+	return out
+}
+
+// VerifNodeIndex returns nodesBySubjectAndKey (fingerprint -> node).
+func (g *Graph) VerifNodeIndex() map[string]*GraphNode {
+	out := make(map[string]*GraphNode, len(g.nodesBySubjectAndKey))
+	for k, n := range g.nodesBySubjectAndKey {
+		out[string(k)] = n
+	}
+	return out
+}
+
+// VerifNodesBySubject returns nodesBySubject (raw subject -> nodes, in index order).
+func (g *Graph) VerifNodesBySubject() map[string][]*GraphNode {
+	out := make(map[string][]*GraphNode, len(g.nodesBySubject))
+	for k, ns := range g.nodesBySubject {
+		out[k] = append([]*GraphNode(nil), ns...)
+	}
+	return out
+}
